@@ -153,7 +153,14 @@ def m_dirdelete_race(f, case, viol):
     return bool(paths) and all(any(_related(_unconf(p), q) for q in rel) for p in paths)
 
 
-MATCHERS = {"history": m_history, "rename_race": m_rename_race, "dirdelete_race": m_dirdelete_race}
+def m_event_exc(f, case, viol):
+    """mechanism: an exception raised by the state API (state.py) escaped an event-intake step while an event was being
+    applied; the provider's read position had already moved past that event, so it is never delivered again."""
+    un = viol.get("unhandled") or []
+    return any(u.startswith("emgr") and "@state.py:" in u for u in un)
+
+
+MATCHERS = {"event_exc": m_event_exc, "history": m_history, "rename_race": m_rename_race, "dirdelete_race": m_dirdelete_race}
 
 
 def match_one(f, case, viol):
